@@ -138,12 +138,64 @@ def check_one(ctx, res, seed, st, samples, distinct):
                 ctx.known_class(cls, d["twin_of"], data)
             else:
                 viol.append(data)
+    # O2: every declaration, with its comments removed, is the declaration Coq computes for the SAME environment with
+    # all documentation erased (Model/Gen.v on the doc-free definitions): documentation never changes a type
+    import copy
+    nodocs = copy.deepcopy(res["defs"])
+    for d in nodocs:
+        d["docs"] = []
+        for f in (d["fields"] if d["kind"] == "struct" else [f for v in d["variants"] for f in v["fields"]]):
+            f["docs"] = []
+    nd_env = res["envname"] + "_nodocs"
+    okc, outc = CR.coq_keep(nd_env, CR.env_file(nodocs))
+    if not okc:
+        raise vlib.HarnessError("doc-free environment does not compile in Coq: " + outc[-2000:])
+    try:
+        named = [i for i, t in enumerate(qs) if t[0] == "named" and not res["q"][i]["decl"].startswith("\x00")]
+        plain = CR.model_exact(nd_env, qs, [(i, 3) for i in named])
+    finally:
+        CR.coq_cleanup(nd_env)
+        CR.C.register(res["defs"])
+    unparsable = set(res.get("real_errors", []))
+    for i, m in zip(named, plain):
+        d = by[qs[i][1]]
+        if m.startswith("\x00") or has_bad_strings(d, by):
+            continue
+        st["doc_free_comparisons"] = st.get("doc_free_comparisons", 0) + 1
+        real = re.sub(r"\s+", " ", tsmini.strip_comments_strings_keep(res["q"][i]["decl"])).strip()
+        want = re.sub(r"\s+", " ", m).strip()
+        if real != want:
+            data = dict(kind="property-violated", what="documentation changes the declared type: the declaration without its comments is not the declaration of the doc-free definitions",
+                        type=C.rust_ty(qs[i]), declaration=res["q"][i]["decl"], without_comments=real, doc_free_declaration=want,
+                        definition=C.to_rust(d), seed=seed)
+            cls = classify(d, by, res["q"][i]["decl"])
+            if cls:
+                st["known"] += 1
+                ctx.known_class(cls, C.rust_ty(qs[i]), data)
+            else:
+                viol.append(data)
     for v in viol[:3]:
         ctx.fail(v["what"], v)
     if mism and not viol:
         ctx.fail("model and implementation disagree on generated text (correspondence)", dict(
             kind="correspondence-broken", broken="Corr/corpus_env: Model/Gen.v + Docs.v vs real export_to_string()", first=mism[0], count=len(mism), seed=seed),
             no_input=True)
+
+
+def has_bad_strings(d, by, seen=None):
+    """a rename / tag string with a quote or backslash anywhere below (C04 known class): comment stripping is not reliable there"""
+    seen = seen if seen is not None else set()
+    if d["ident"] in seen:
+        return False
+    seen.add(d["ident"])
+    strs = [d.get("rename"), d.get("tag")] + list(d.get("tagging", ())[1:])
+    for f in (d["fields"] if d["kind"] == "struct" else [f for v in d["variants"] for f in v["fields"]]):
+        strs += [f.get("rename"), f.get("type")]
+    for v in d.get("variants", []):
+        strs += [v.get("rename"), v.get("type")]
+    if any(x and isinstance(x, str) and any(ch in x for ch in '"\\\n') for x in strs):
+        return True
+    return any(has_bad_strings(by[r], by, seen) for r in CR.def_refs(d) if r in by)
 
 
 def classify(d, by, text):
